@@ -2261,19 +2261,27 @@ class Gated:
         import nfc.llcp
         self.L, self.cfg, self.st = nfc.llcp, cfg, st
         agf = cfg["agf"]
-        self.lp = LockstepPair({"miu": 248, "agf": bool(agf[0])}, {"miu": 248, "agf": bool(agf[1])})
-        self.lp.keep_wire = False
-        if not (self.lp.ok_a and self.lp.ok_b):
-            raise Inconclusive("LLC activation failed")
-        self.watch = WireWatch(st)
-        self.lp.observers.append(self.watch)
         x = self.x = cfg["end"]
         rws = {x: cfg["rw_back"], other(x): cfg["rw"]}
         c = cfg["client"]
-        try:
-            cli, acc, srv = lockstep_connect(self.lp, c, 40, {"rw": rws[c]}, {"rw": rws[other(c)]})
-        except RuntimeError as e:
-            raise Inconclusive("connection set-up: %s" % e)
+        for attempt in range(4):
+            # lockstep_connect() gives the helper thread inside connect() a bounded number of link turns to get
+            # scheduled: on a starved machine it may not be (nothing about nfcpy) - the set-up is then repeated
+            self.lp = LockstepPair({"miu": 248, "agf": bool(agf[0])}, {"miu": 248, "agf": bool(agf[1])})
+            self.lp.keep_wire = False
+            if not (self.lp.ok_a and self.lp.ok_b):
+                raise Inconclusive("LLC activation failed")
+            self.watch = WireWatch(Stats() if attempt < 3 else st)
+            self.lp.observers.append(self.watch)
+            try:
+                cli, acc, srv = lockstep_connect(self.lp, c, 40, {"rw": rws[c]}, {"rw": rws[other(c)]})
+                break
+            except RuntimeError as e:
+                if attempt == 3 or "did not return" not in str(e):
+                    raise Inconclusive("connection set-up: %s" % e)
+                st.inc("gated_setup_retries")
+                time.sleep(0.05 * (attempt + 1))
+        self.watch.st = st
         self.S, self.R = (cli, acc) if c == x else (acc, cli)
         self.viol = []
         self.threads = {}
